@@ -56,6 +56,8 @@ func run(line string) core.Outcome {
 		return runSite(f)
 	case "fenc":
 		return runFenc(f)
+	case "opts":
+		return runOpts(f)
 	}
 	return core.Outcome{Impl: "bad-op"}
 }
@@ -567,6 +569,10 @@ func (prop) Generate(rng *core.Rand, tier string, emit func(string)) {
 	re := rng.Fork()
 	for i := 0; i < ne; i++ {
 		emit(genFencCase(re))
+	}
+	ro := rng.Fork()
+	for i := 0; i < ne/10; i++ {
+		emit(genOptsCase(ro))
 	}
 	for i := 0; i < ns; i++ {
 		if l, ok := genSiteCase(rs); ok {
